@@ -213,3 +213,106 @@ func Harness_channel_read_failure() {
 		verifAssert("producer-exits-after-drain", producerDone)
 	}
 }
+
+// hObserveFile is hObserve for Parser.ParseFile.
+func hObserveFile(name string, policy int) (seen []hEvent, producerDone bool, stuck bool) {
+	p := NewParser(NewDefaultConfig())
+	if verifEngine() {
+		p.ParseFile(name)
+		n := verifEventCount()
+		for i := 0; i < n; i++ {
+			k := verifEventKind(i, p.Nodes, p.Errors, p.Done)
+			ev := hEvent{kind: k}
+			if k == 0 {
+				ev.node = verifEventNode(i)
+			} else if k == 1 {
+				ev.err = verifEventErr(i)
+			}
+			seen = append(seen, ev)
+			if ev.kind == 2 || (policy == 0 && ev.kind == 1) {
+				return seen, i == n-1, false
+			}
+		}
+		return seen, true, true
+	}
+	exited := make(chan struct{})
+	go func() {
+		p.ParseFile(name)
+		close(exited)
+	}()
+	watchdog := time.After(2 * time.Second)
+	for {
+		select {
+		case n := <-p.Nodes:
+			seen = append(seen, hEvent{kind: 0, node: n})
+		case e := <-p.Errors:
+			seen = append(seen, hEvent{kind: 1, err: e})
+			if policy == 0 {
+				return seen, hExited(exited), false
+			}
+		case <-p.Done:
+			seen = append(seen, hEvent{kind: 2})
+			return seen, hExited(exited), false
+		case <-watchdog:
+			return seen, hExited(exited), true
+		}
+	}
+}
+
+// Harness_channel_parse_file: Parser.ParseFile against ParseFileCallback for a file that exists
+// (well formed or with a malformed line), a file that does not exist and a directory: the
+// consumer sees the callback parser's records, then completion or that error; a draining
+// consumer sees Done last and the producer exits.
+func Harness_channel_parse_file() {
+	kind := verifChoose("file", 4)
+	verifLabel("file", []string{"well-formed", "malformed", "missing", "directory"}[kind])
+	name := ""
+	switch kind {
+	case 0:
+		name = verifFile("f", "d0:\n  a: 1\nd1:\n  b: 2\n")
+	case 1:
+		name = verifFile("f", "d0:\n  a: 1\nd1:\n  b:2\nd2:\n  c: 3\n")
+	case 2:
+		name = verifMissingFile("f")
+	case 3:
+		name = verifDir("f")
+	}
+	policy := verifChoose("policy", 2)
+	ref := &hRec{}
+	var firstErr error
+	refErr := ParseFileCallback(name, NewDefaultConfig(), func(n *shared.ParserNode, err error) (bool, error) {
+		if err != nil {
+			firstErr = err
+			return true, err
+		}
+		ref.nodes = append(ref.nodes, n)
+		return false, nil
+	})
+	if firstErr == nil {
+		firstErr = refErr
+	}
+	seen, producerDone, stuck := hObserveFile(name, policy)
+	verifCover("observed")
+	verifAssert("consumer-terminates", !stuck)
+	if stuck {
+		return
+	}
+	k := 0
+	for k < len(seen) && seen[k].kind == 0 {
+		k++
+	}
+	rest := seen[k:]
+	verifAssert("records-before-first-error", k == len(ref.nodes))
+	if firstErr == nil {
+		verifAssert("completion-after-records", len(rest) == 1 && rest[0].kind == 2)
+	} else {
+		verifAssert("first-error-follows-records", len(rest) >= 1 && rest[0].kind == 1 && rest[0].err.Error() == firstErr.Error())
+		if policy == 1 {
+			verifLabel("policy", "drain")
+			verifAssert("done-is-last", rest[len(rest)-1].kind == 2)
+		}
+	}
+	if policy == 1 {
+		verifAssert("producer-exits-after-drain", producerDone)
+	}
+}
